@@ -851,7 +851,7 @@ func main() {
 		return
 	}
 	defer drv.Close()
-	run.Res.Rule = "histories of Get / ExecutePlan / Reset / schema replacement (two slots, same shape, new pointer per replacement) over a pool of 6-30 requests drawn as near-miss pairs from ten families (list / input-object literals for resolvers that mutate their arguments, one literal, one alias, argument order/name, operation names, text imitating the key encodings incl. \\x00 and multi-byte, variables + dynamic directives, object/list/interface/union/fragment shapes, rejected requests, formerly normaliser-unsafe shapes D-06b…g), caps {1,2,3,5,default}, MaxQueryBytes {default,40,64} with over-size and at-limit twins, nil cache 1/25; modes raw 60% / Normalize=true 40% (norm-safe, norm-any = with adversarial operation names); non-trivial = the history has a hit and at least one of eviction, schema-guard miss, reset, bypass, re-execution of a stale plan; distinct by the whole history"
+	run.Res.Rule = "histories of Get / ExecutePlan / Reset / schema replacement (two slots, same shape, new pointer per replacement) over a pool of 6-30 requests drawn as near-miss pairs from eleven families (equal literals under every wrapper shape of one input type, list / input-object literals for resolvers that mutate their arguments, one literal, one alias, argument order/name, operation names, text imitating the key encodings incl. \\x00 and multi-byte, variables + dynamic directives, object/list/interface/union/fragment shapes, rejected requests, formerly normaliser-unsafe shapes D-06b…g), caps {1,2,3,5,default}, MaxQueryBytes {default,40,64} with over-size and at-limit twins, nil cache 1/25; modes raw 60% / Normalize=true 40% (norm-safe, norm-any = with adversarial operation names); non-trivial = the history has a hit and at least one of eviction, schema-guard miss, reset, bypass, re-execution of a stale plan; distinct by the whole history"
 	run.Res.Assumptions = []string{
 		"Normalize=true is compared with graphql.Do on every history and every pool (the shapes that exhibited D-06b…g are part of the pool since their repair); mode norm-any differs from norm-safe only by also drawing adversarial operation names",
 		"the response comparison is byte equality of json.Marshal(result) (data and errors with messages, locations, paths) between ExecutePlan(plan from the cache, args ∪ SynthArgs) and graphql.Do on the same schema object",
